@@ -147,7 +147,12 @@ func parseModel(out string) map[string]string {
 func prepare(c *Ctx, o *Obligation, workDir string) *Result {
 	var asserts []*Term
 	if o.Cover {
-		asserts = []*Term{o.Assume, o.Goal}
+		// Satisfiability with quantifiers is not decidable by the solvers; the guard checks the
+		// quantifier-free part of the assumptions (and every ground fact), which is where a
+		// contradictory requires/Assume would show.
+		asserts = []*Term{c.StripQuant(o.Assume), o.Goal}
+		c.SkipQuantAxioms = true
+		defer func() { c.SkipQuantAxioms = false }()
 	} else {
 		asserts = []*Term{o.Assume, c.Not(o.Goal)}
 	}
